@@ -288,3 +288,11 @@ Proof.
       rewrite (Hall y (or_introl eq_refl)). simpl. f_equal. apply IH. intros z Hz. apply Hall. right; exact Hz. }
     rewrite E1, E2. reflexivity.
 Qed.
+
+Lemma event_lt_total_distinct_ids a b :
+  ev_type a = simProcResume -> ev_type b = simProcResume -> ev_insertion a <> ev_insertion b ->
+  event_lt a b = true \/ event_lt b a = true.
+Proof.
+  intros Ha Hb Hne. destruct (event_lt_trichotomy a b) as [H|[H|H]]; auto.
+  exfalso. destruct H as (_ & _ & _ & _ & H). apply Hne, H, Ha.
+Qed.
